@@ -8,6 +8,10 @@ floating point: coefficients are `fractions.Fraction`.
 from fractions import Fraction
 
 
+SUBS_LOG = None      # when a list: (input, mapping, output) of every substitution (thorough tier cross-check)
+ZERO_LOG = None      # when a list: every polynomial whose vanishing decided an identity is appended (thorough tier cross-check)
+
+
 class Poly:
     __slots__ = ("t",)
 
@@ -232,11 +236,20 @@ class Rat:
     def is_zero(self):
         return self.n.is_zero()
 
+    def raw(self):
+        """numerator / denominator as plain term lists (for the independent re-check)"""
+        def terms(p):
+            return [[str(c), [[a, e] for a, e in m]] for m, c in p.t.items()]
+        return {'n': terms(self.n), 'd': terms(self.d)}
+
     def __eq__(self, o):
         if not isinstance(o, (Rat, Poly, int, Fraction)):
             return False
         o = _r(o)
-        return (self.n * o.d - o.n * self.d).is_zero()
+        res = (self.n * o.d - o.n * self.d).is_zero()
+        if res and ZERO_LOG is not None and len(ZERO_LOG) < 4000 and (len(self.n.t) + len(o.n.t)) > 2:
+            ZERO_LOG.append((self, o))
+        return res
 
     def __hash__(self):
         return 0
@@ -254,7 +267,10 @@ class Rat:
     def subs(self, mapping):
         a = self.n.subs(mapping)
         b = self.d.subs(mapping)
-        return a / b
+        res = a / b
+        if SUBS_LOG is not None and len(SUBS_LOG) < 3000 and mapping:
+            SUBS_LOG.append((self, {k: (v if isinstance(v, Rat) else Rat(_p(v))) for k, v in mapping.items()}, res))
+        return res
 
     def __str__(self):
         if self.d.is_const() and self.d.const_value() == 1:
